@@ -64,7 +64,7 @@ fn clang_accepts(path: &Path, cpp: bool, extra: &[String]) -> bool {
 // ------------------------------------------------------------------ rustc batches
 
 #[derive(Debug, Clone)]
-struct RustcError { code: String, message: String, file: String }
+struct RustcError { code: String, message: String, file: String, rendered: String }
 
 fn json_field(line: &str, key: &str, from: usize) -> Option<(String, usize)> {
     let pat = format!("\"{key}\":\"");
@@ -91,7 +91,8 @@ fn parse_rustc_json(stderr: &str) -> Vec<RustcError> {
             Some(p) => line[..p].rfind("\"file_name\":\"").and_then(|i| { let s = &line[i + 13..]; s.find('"').map(|e| s[..e].to_owned()) }).unwrap_or_default(),
             None => json_field(line, "file_name", 0).map(|x| x.0).unwrap_or_default(),
         };
-        v.push(RustcError { code, message, file });
+        let rendered = line.rfind("\"rendered\":\"").and_then(|i| json_field(line, "rendered", i)).map(|x| x.0).unwrap_or_default();
+        v.push(RustcError { code, message, file, rendered });
     }
     v
 }
@@ -106,6 +107,16 @@ fn rustc_batch(dir: &Path, tag: &str, edition: &str, files: &[PathBuf]) -> (i32,
         .arg("-o").arg(dir.join(format!("lib_{tag}.rmeta"))).arg(&wp));
     let mut m: BTreeMap<String, Vec<RustcError>> = BTreeMap::new();
     for err in parse_rustc_json(&e) { m.entry(err.file.clone()).or_default().push(err); }
+    let _ = std::fs::remove_file(dir.join(format!("lib_{tag}.rmeta")));
+    (rc, m, e)
+}
+
+/// compile one bindings file as the crate root
+fn rustc_solo(dir: &Path, tag: &str, edition: &str, file: &Path) -> (i32, BTreeMap<String, Vec<RustcError>>, String) {
+    let (rc, _o, e) = util::run(Command::new("rustc").args(["--edition", edition, "--crate-type", "lib", "--emit", "metadata", "--error-format=json", "--cap-lints", "allow", "-A", "warnings"])
+        .arg("-o").arg(dir.join(format!("lib_{tag}.rmeta"))).arg(file));
+    let mut m: BTreeMap<String, Vec<RustcError>> = BTreeMap::new();
+    for err in parse_rustc_json(&e) { m.entry(file.display().to_string()).or_default().push(err); }
     let _ = std::fs::remove_file(dir.join(format!("lib_{tag}.rmeta")));
     (rc, m, e)
 }
@@ -142,7 +153,7 @@ fn triage(case: &Case, errs: &[RustcError], bindings: &str, st: &mut Stats) {
     }
     if remaining.is_empty() { return; }
     // E0428: duplicate definitions
-    let dup: Vec<String> = remaining.iter().filter(|e| e.code == "E0428").filter_map(|e| e.message.split('`').nth(1).map(|s| s.to_owned())).collect();
+    let dup: Vec<String> = remaining.iter().filter(|e| e.code == "E0428" || e.code == "E0124").filter_map(|e| e.message.split('`').nth(1).map(|s| s.to_owned())).collect();
     let mut explained: BTreeSet<String> = BTreeSet::new();
     if !dup.is_empty() {
         // (a) overload-suffix clash: the model's assignNames over the emitted functions' canonical names has that duplicate
@@ -169,17 +180,99 @@ fn triage(case: &Case, errs: &[RustcError], bindings: &str, st: &mut Stats) {
                 let ans = model_one(format!("c01 collide {} {}", hex(a), hex(d)));
                 if ans == "1" {
                     explained.insert(d.clone());
-                    *st.known.entry(format!("mangle_collision: C identifiers `{a}` and `{d}` both become `{d}` (rust_mangle is not injective); rustc E0428, as the model predicts")).or_insert(0) += 1;
+                    *st.known.entry(format!("mangle_collision: C identifiers `{a}` and `{d}` both become `{d}` (rust_mangle is not injective); rustc E0428 / E0124, as the model predicts")).or_insert(0) += 1;
                     break;
                 }
             }
         }
     }
     let _ = inv;
-    let rest: Vec<&&RustcError> = remaining.iter().filter(|e| !(e.code == "E0428" && e.message.split('`').nth(1).is_some_and(|d| explained.contains(d)))).collect();
+    let rest: Vec<&&RustcError> = remaining.iter().filter(|e| !(matches!(e.code.as_str(), "E0428" | "E0124" | "E0119" | "E0609" | "E0599" | "E0308" | "E0560" | "E0080") && (e.message.split('`').filter(|s| !s.is_empty()).any(|d| explained.contains(d) || explained.iter().any(|x| d.ends_with(&format!("::{x}")))) || explained.iter().any(|x| e.rendered.contains(&format!(", {x})")) || e.rendered.contains(&format!(" {x})")))))).collect();
     if rest.is_empty() { return; }
-    let sig = signature(rest[0]);
-    st.fail("oracle", &sig, format!("{} error(s); first: [{}] {}", rest.len(), rest[0].code, rest[0].message), case);
+    // option / header-feature regions (single definition: Lean `C01Regions.classify`)
+    let has = |f: &str| case.flags.iter().any(|x| x == f);
+    let newtype = case.flags.windows(2).any(|w| w[0] == "--default-alias-style" && w[1].starts_with("new_type"));
+    let opts: String = [has("--with-derive-partialord"), has("--with-derive-ord"), has("--with-derive-partialeq"), has("--with-derive-eq"), has("--impl-debug"), has("--impl-partialeq"), has("--explicit-padding"), newtype, has("--no-derive-copy"), has("--c-naming"), case.flags.windows(2).any(|w| w[0] == "--default-enum-style" && w[1].starts_with("newtype"))].iter().map(|b| if *b { '1' } else { '0' }).collect();
+    let h = &case.header;
+    let compact: String = h.split_whitespace().collect::<Vec<_>>().join(" ");
+    let empty_union = regex_like_empty(&compact, "union");
+    let empty_aligned = compact.contains("aligned(") && (regex_like_empty(&compact, "struct") || regex_like_empty(&compact, "class"));
+    let facts: String = [h.contains("packed") || h.contains("#pragma pack"), h.contains("aligned(") || h.contains("alignas"), empty_union, empty_aligned, h.contains(" : ") && h.chars().any(|c| c == ':'), bindings.contains("__BindgenOpaqueArray"), h.contains("__int128") || h.contains("long double"),
+        case.cpp && (h.contains("namespace") || h.contains("class ") || h.contains("struct ")),
+        tokenize(h).iter().any(|t| KEYWORDS.contains(&t.as_str()) && !matches!(t.as_str(), "const" | "static" | "struct" | "enum" | "extern" | "union" | "typedef" | "virtual" | "bool" | "final" | "override" | "for" | "if" | "else" | "while" | "return" | "do" | "break" | "continue" | "true" | "false")),
+        h.contains("union ")].iter().map(|b| if *b { '1' } else { '0' }).collect();
+    let mut unexplained: Vec<&RustcError> = vec![];
+    let mut cache: BTreeMap<String, String> = BTreeMap::new();
+    for e in rest {
+        let class = err_class(e);
+        let ans = cache.entry(class.to_string()).or_insert_with(|| model_one(format!("c01 region opts={opts} facts={facts} err={class}"))).clone();
+        if ans != "-" && !ans.starts_with("bad") {
+            *st.known.entry(format!("{ans}: flags {:?}; rustc [{}] {}", case.flags.iter().filter(|f| f.starts_with("--with-derive") || f.starts_with("--impl") || f.contains("alias") || f.contains("padding")).collect::<Vec<_>>(), e.code, e.message.chars().take(110).collect::<String>())).or_insert(0) += 1;
+            st.bump(&format!("known_{ans}"), 1);
+        } else { unexplained.push(e); }
+    }
+    if unexplained.is_empty() { return; }
+    let sig = signature(unexplained[0]);
+    st.fail("oracle", &sig, format!("{} error(s) outside every region; first: [{}] {} (opts={opts} facts={facts})\n{}", unexplained.len(), unexplained[0].code, unexplained[0].message, unexplained[0].rendered.chars().take(900).collect::<String>()), case);
+}
+
+/// `<kw> <name>? { }` somewhere in the whitespace-normalised header
+fn regex_like_empty(compact: &str, kw: &str) -> bool {
+    let mut rest = compact;
+    while let Some(i) = rest.find(kw) {
+        let after = &rest[i + kw.len()..];
+        if let Some(j) = after.find('{') {
+            let head = &after[..j];
+            let body_empty = after[j + 1..].trim_start().starts_with('}');
+            if body_empty && !head.contains(';') && !head.contains('}') && !head.contains('(') || (body_empty && head.contains("aligned(") && !head.contains(';')) { return true; }
+        }
+        rest = &rest[i + kw.len()..];
+    }
+    false
+}
+
+/// a panic of bindgen on a header clang accepts (no bindings at all)
+fn panic_triage(case: &Case, msg: &str, st: &mut Stats) {
+    // the in-process driver only has the message; re-run through the CLI for the location
+    let hp = std::env::temp_dir().join(format!("bgverif_c01_panic_{}.{}", std::process::id(), if case.cpp { "hpp" } else { "h" }));
+    util::write(&hp, &case.header);
+    let mut a: Vec<String> = vec![hp.to_string_lossy().into_owned()];
+    a.extend(case.flags.iter().cloned());
+    a.push("--".into());
+    a.extend(case.clang_args.iter().cloned());
+    let (_rc, _o, err) = cli(&a, &[], None);
+    let _ = std::fs::remove_file(&hp);
+    let loc = err.lines().find(|l| l.contains("panicked at")).unwrap_or("").to_string();
+    let has = |f: &str| case.flags.iter().any(|x| x == f);
+    let h = &case.header;
+    if loc.contains("codegen/struct_layout.rs") {
+        let opts: String = [has("--with-derive-partialord"), has("--with-derive-ord"), has("--with-derive-partialeq"), has("--with-derive-eq"), has("--impl-debug"), has("--impl-partialeq"), has("--explicit-padding"), false, false, false, false].iter().map(|b| if *b { '1' } else { '0' }).collect();
+        let facts: String = [h.contains("packed") || h.contains("#pragma pack"), h.contains("aligned("), false, false, h.contains(" : "), false, false, false, false, false].iter().map(|b| if *b { '1' } else { '0' }).collect();
+        let ans = model_one(format!("c01 region opts={opts} facts={facts} err=layoutPanic"));
+        if ans != "-" && !ans.starts_with("bad") {
+            *st.known.entry(format!("{ans}: bindgen panics ({}: {msg}) on a header clang accepts; flags {:?}", loc.trim(), case.flags.iter().filter(|f| f.contains("padding")).collect::<Vec<_>>())).or_insert(0) += 1;
+            return;
+        }
+    }
+    st.fail("oracle", &format!("bindgen-panic {}", loc.chars().filter(|c| !c.is_ascii_digit()).take(80).collect::<String>()), format!("{msg} | {loc}"), case);
+}
+
+fn err_class(e: &RustcError) -> &'static str {
+    let m = e.message.as_str();
+    match e.code.as_str() {
+        "E0277" | "E0369" if m.contains("can't compare") || m.contains(": Eq`") || m.contains("PartialEq") || m.contains("PartialOrd") || m.contains(": Ord`") || m.contains("binary operation") => "cmp",
+        "E0277" if m.contains("doesn't implement `Debug`") => "missingDebug",
+        "E0133" => "e0133",
+        "E0054" => "e0054",
+        "E0412" | "E0425" | "E0433" | "E0422" => "unresolved",
+        "E0423" => "e0423",
+        "E0530" => "e0530",
+        "E0588" => "e0588",
+        "E0793" => "e0793",
+        "E0080" if m.contains("index out of bounds") || m.contains("overflow") => "layoutAssert",
+        _ if m.contains("unions cannot have zero fields") => "emptyUnion",
+        _ => "other",
+    }
 }
 
 // ------------------------------------------------------------------ M. correspondence
@@ -198,6 +291,14 @@ fn part_m(args: &Args, root: &Path, st: &mut Stats) {
     }
     names.sort(); names.dedup();
     names.retain(|n| !n.is_empty());
+    {
+        // functions whose mangled names coincide are told apart by the overload counter: keep one per image
+        let imgs = util::model(&names.iter().map(|n| format!("c01 mangle {}", hex(n))).collect::<Vec<_>>());
+        let mut seen = BTreeSet::new();
+        let mut keep = vec![];
+        for (n, i) in names.iter().zip(&imgs) { if seen.insert(i.clone()) { keep.push(n.clone()); } }
+        names = keep;
+    }
     let mut h = String::new();
     for (i, n) in names.iter().enumerate() {
         let _ = writeln!(h, "int {n}(int {n});");
@@ -249,6 +350,7 @@ fn part_m(args: &Args, root: &Path, st: &mut Stats) {
         std::mem::forget(sc);
     }
     let ans = util::model(&reqs);
+    let mut pending: Vec<(Case, String, Vec<String>, Vec<String>, bool)> = vec![];
     for ((seq, got, h, b), a) in metas.iter().zip(&ans) {
         let names: Vec<String> = a.split_whitespace().find_map(|t| t.strip_prefix("names=")).map(|d| d.split(',').filter(|x| !x.is_empty()).map(unhex).collect()).unwrap_or_default();
         let region = a.contains("region=1");
@@ -258,37 +360,40 @@ fn part_m(args: &Args, root: &Path, st: &mut Stats) {
         let case = Case { name: "overloads".into(), cpp: true, header: h.clone(), flags: vec![], clang_args: vec![], edition: "2021".into(), blocklisted: vec![], facts: Facts { fn_names: vec![(String::new(), seq.clone())], ..Default::default() }, origin: "overloads".into(), bindings: None };
         if *got != names { st.fail("correspondence", "assign_names", format!("canonical {seq:?}: implementation {got:?}, model {names:?}"), &case); continue; }
         if has_dup && !region { st.fail("correspondence", "assign_names-region", format!("duplicate outside the region for {seq:?}"), &case); }
-        // oracle on the ones with duplicates (and a sample of the others)
-        if has_dup || st.counters.get("overload_sets_compiled").copied().unwrap_or(0) < 12 {
-            let d = root.join("ovc");
-            std::fs::create_dir_all(&d).unwrap();
-            let f = d.join("b.rs");
-            util::write(&f, b);
-            let (rc, errs, _raw) = rustc_batch(&d, "ov", "2021", &[f.clone()]);
+        pending.push((case, b.clone(), names.clone(), seq.clone(), has_dup));
+    }
+    // oracle: all overload sets compiled as modules of one crate, errors attributed per file
+    let d = root.join("ovc");
+    std::fs::create_dir_all(&d).unwrap();
+    let files: Vec<PathBuf> = pending.iter().enumerate().map(|(i, p)| { let f = d.join(format!("ov{i}.rs")); util::write(&f, &p.1); f }).collect();
+    for (chunk_i, chunk) in files.chunks(40).enumerate() {
+        let (_rc, errs, _raw) = rustc_batch(&d, &format!("ov{chunk_i}"), "2021", chunk);
+        for (k, f) in chunk.iter().enumerate() {
+            let (case, b, names, seq, has_dup) = &pending[chunk_i * 40 + k];
             st.bump("overload_sets_compiled", 1);
-            let e: Vec<RustcError> = errs.into_values().flatten().collect();
-            if has_dup {
+            let e: Vec<RustcError> = errs.get(&f.display().to_string()).cloned().unwrap_or_default();
+            if *has_dup {
                 let dup_names: BTreeSet<String> = e.iter().filter(|x| x.code == "E0428").filter_map(|x| x.message.split('`').nth(1).map(|s| s.to_owned())).collect();
                 let mut seen = BTreeSet::new();
                 let pred: BTreeSet<String> = names.iter().filter(|n| !seen.insert((*n).clone())).cloned().collect();
-                if rc != 0 && dup_names == pred && e.iter().all(|x| x.code == "E0428") {
+                if !e.is_empty() && dup_names == pred && e.iter().all(|x| x.code == "E0428") {
                     *st.known.entry(format!("name_suffix_clash: C++ overload set {seq:?} is emitted as {names:?}; rustc E0428 for {pred:?} exactly as assignNames predicts")).or_insert(0) += 1;
-                } else { st.fail("oracle", "overloads-unexpected", format!("{seq:?} -> {names:?}: rc={rc} errors {:?}", e.iter().map(|x| (&x.code, &x.message)).collect::<Vec<_>>()), &case); }
-            } else if rc != 0 { triage(&case, &e, b, st); }
+                } else { st.fail("oracle", "overloads-unexpected", format!("{seq:?} -> {names:?}: errors {:?}", e.iter().map(|x| (&x.code, &x.message)).collect::<Vec<_>>()), case); }
+            } else if !e.is_empty() { triage(case, &e, b, st); }
         }
     }
     for i in 0..n { let _ = std::fs::remove_dir_all(root.join(format!("ov{i}"))); }
     // (c) mangle collision probe
     let sc = Scratch(root.join("coll"));
     std::fs::create_dir_all(&sc.0).unwrap();
-    let h = "int match(int a);\nint match_(int a);\n";
+    let h = "struct match { int a; };\nstruct match_ { int b; };\nstruct c01_fields { int a$; int a__; };\n";
     let out = generate_text(&sc, "c.h", h, &[], &[], false);
     if let Some(b) = out.bindings {
         let f = sc.path("b.rs");
         util::write(&f, &b);
         let (rc, errs, _) = rustc_batch(&sc.0, "coll", "2021", &[f]);
         let e: Vec<RustcError> = errs.into_values().flatten().collect();
-        let case = Case { name: "collision".into(), cpp: false, header: h.into(), flags: vec![], clang_args: vec![], edition: "2021".into(), blocklisted: vec![], facts: Facts { idents: vec!["match".into(), "match_".into()], ..Default::default() }, origin: "probe".into(), bindings: None };
+        let case = Case { name: "collision".into(), cpp: false, header: h.into(), flags: vec![], clang_args: vec![], edition: "2021".into(), blocklisted: vec![], facts: Facts { idents: vec!["match".into(), "match_".into(), "a$".into(), "a__".into()], ..Default::default() }, origin: "probe".into(), bindings: None };
         if rc != 0 { triage(&case, &e, &b, st); } else { st.distinct.insert("probe:collision:fixed".into()); }
     }
 }
@@ -300,7 +405,12 @@ fn run_cases(mut cases: Vec<Case>, root: &Path, st: &mut Stats, tag: &str) {
     let mut by_ed: BTreeMap<String, Vec<usize>> = BTreeMap::new();
     for (i, c) in cases.iter().enumerate() { if c.bindings.is_some() { by_ed.entry(c.edition.clone()).or_default().push(i); } }
     let mut batches: Vec<(String, Vec<usize>)> = vec![];
-    for (ed, idxs) in by_ed { for ch in idxs.chunks(12) { batches.push((ed.clone(), ch.to_vec())); } }
+    for (ed, idxs) in by_ed {
+        // bindings that start with inner attributes (raw lines) must be the crate root
+        let (solo, multi): (Vec<usize>, Vec<usize>) = idxs.into_iter().partition(|k| std::fs::read_to_string(cases[*k].bindings.as_ref().unwrap()).map(|t| t.contains("#![")).unwrap_or(false));
+        for k in solo { batches.push((format!("{ed}:solo"), vec![k])); }
+        for ch in multi.chunks(12) { batches.push((ed.clone(), ch.to_vec())); }
+    }
     let threads = std::thread::available_parallelism().map(|x| x.get()).unwrap_or(4).min(16);
     let next = std::sync::atomic::AtomicUsize::new(0);
     let results: std::sync::Mutex<Vec<(usize, BTreeMap<String, Vec<RustcError>>, i32, String)>> = std::sync::Mutex::new(vec![]);
@@ -313,7 +423,7 @@ fn run_cases(mut cases: Vec<Case>, root: &Path, st: &mut Stats, tag: &str) {
                 if i >= batches_ref.len() { break; }
                 let (ed, idxs) = &batches_ref[i];
                 let files: Vec<PathBuf> = idxs.iter().map(|k| cases_ref[*k].bindings.clone().unwrap()).collect();
-                let (rc, m, raw) = rustc_batch(root, &format!("{tag}{i}"), ed, &files);
+                let (rc, m, raw) = if let Some(e) = ed.strip_suffix(":solo") { rustc_solo(root, &format!("{tag}{i}"), e, &files[0]) } else { rustc_batch(root, &format!("{tag}{i}"), ed, &files) };
                 results.lock().unwrap().push((i, m, rc, raw));
             });
         }
@@ -328,7 +438,7 @@ fn run_cases(mut cases: Vec<Case>, root: &Path, st: &mut Stats, tag: &str) {
             let c = &cases[*k];
             let f = c.bindings.as_ref().unwrap().display().to_string();
             st.bump("bindings_compiled", 1);
-            st.bump(&format!("compiled_edition_{ed}"), 1);
+            st.bump(&format!("compiled_edition_{}", ed.trim_end_matches(":solo")), 1);
             if let Some(errs) = m.get(&f) {
                 attributed += errs.len();
                 let text = std::fs::read_to_string(c.bindings.as_ref().unwrap()).unwrap_or_default();
@@ -347,8 +457,8 @@ fn run_cases(mut cases: Vec<Case>, root: &Path, st: &mut Stats, tag: &str) {
 
 fn part_g(args: &Args, root: &Path, st: &mut Stats) {
     let mut r = Rng::new(args.seed ^ 0x6E6);
-    let n = if args.thorough() { 3000 } else { 170 };
-    let nopt = if args.thorough() { 4 } else { 2 };
+    let n = if args.thorough() { 1200 } else { 170 };
+    let nopt = if args.thorough() { 3 } else { 2 };
     let s = Scratch(root.join("g"));
     std::fs::create_dir_all(&s.0).unwrap();
     let mut cases = vec![];
@@ -363,7 +473,7 @@ fn part_g(args: &Args, root: &Path, st: &mut Stats) {
         for f in &facts.features { st.distinct.insert(format!("feature:{}:{f}", if cpp { "cpp" } else { "c" })); }
         for k in 0..nopt {
             let o = gen_options(&mut r, cpp, &facts);
-            let mut flags: Vec<String> = vec![hp.to_string_lossy().into_owned(), "--formatter".into(), "none".into()];
+            let mut flags: Vec<String> = vec![hp.to_string_lossy().into_owned(), "--formatter".into(), "prettyplease".into()];
             flags.extend(o.flags.iter().cloned());
             let clang_args: Vec<String> = if cpp { vec!["-x".into(), "c++".into(), "-std=c++14".into()] } else { vec![] };
             flags.push("--".into());
@@ -375,7 +485,7 @@ fn part_g(args: &Args, root: &Path, st: &mut Stats) {
             match out.bindings {
                 Some(b) => { let bp = s.path(&format!("g{i}_{k}.rs")); util::write(&bp, &b); case.bindings = Some(bp); }
                 None => {
-                    if let Some(p) = out.panic { st.bump("bindgen_panics", 1); st.fail("oracle", &format!("bindgen-panic {}", p.chars().filter(|c| !c.is_ascii_digit()).take(60).collect::<String>()), p, &case); }
+                    if let Some(p) = out.panic { st.bump("bindgen_panics", 1); panic_triage(&case, &p, st); }
                     else { st.bump("bindgen_errors", 1); }
                 }
             }
@@ -388,13 +498,13 @@ fn part_g(args: &Args, root: &Path, st: &mut Stats) {
 
 fn part_r(args: &Args, root: &Path, st: &mut Stats) {
     let mut r = Rng::new(args.seed ^ 0x4E4);
-    let n = if args.thorough() { 2000 } else { 60 };
+    let n = if args.thorough() { 800 } else { 60 };
     let s = Scratch(root.join("r"));
     std::fs::create_dir_all(&s.0).unwrap();
     let headers: Vec<(PathBuf, Vec<String>)> = util::repo_headers().into_iter().filter(|(p, fl)| {
         let n = p.file_name().unwrap().to_string_lossy().to_string();
         // outside the property: Objective-C, headers needing extra files / raw lines the wrapper cannot provide, dynamic loading
-        !n.contains("objc") && !fl.iter().any(|f| f.contains("objective-c") || f == "--dynamic-loading" || f == "--wrap-static-fns" || f.starts_with("--depfile") || f.contains("nightly") || f == "--emit-diagnostics")
+        !n.contains("objc") && !fl.iter().any(|f| f.contains("objective-c") || f == "--dynamic-loading" || f == "--wrap-static-fns" || f == "--generate-block" || f == "--field-attr" || f == "--block-extern-crate" || f == "--objc-extern-crate" || f.starts_with("--depfile") || f.contains("nightly") || f == "--emit-diagnostics")
     }).collect();
     let mut cases = vec![];
     let mut tries = 0;
@@ -421,9 +531,10 @@ fn part_r(args: &Args, root: &Path, st: &mut Stats) {
         st.bump("mutants_tried", 1);
         if !clang_accepts(&hp, cpp, &cargs) { st.bump("mutants_rejected_by_clang", 1); let _ = std::fs::remove_dir_all(&dir); continue; }
         let edition = *r.pick(&["2018", "2021", "2024"]);
-        let mut a: Vec<String> = vec![hp.to_string_lossy().into_owned(), "--formatter".into(), "none".into()];
+        let mut a: Vec<String> = vec![hp.to_string_lossy().into_owned()];
+        if !bflags.iter().any(|f| f.starts_with("--formatter") || f == "--no-rustfmt-bindings") { a.push("--formatter".into()); a.push("prettyplease".into()); }
         a.extend(bflags.iter().cloned());
-        if !bflags.iter().any(|f| f == "--rust-edition" || f.starts_with("--rust-target")) { a.push("--rust-edition".into()); a.push(edition.into()); }
+        if !bflags.iter().any(|f| f == "--rust-edition" || f.starts_with("--rust-target")) { a.push("--rust-edition".into()); a.push(edition.into()); if edition == "2024" { a.push("--rust-target".into()); a.push("1.85".into()); } }
         a.push("--".into());
         a.extend(cargs.iter().cloned());
         let (rc, out, err) = cli(&a, &[], Some(&dir));
@@ -431,7 +542,7 @@ fn part_r(args: &Args, root: &Path, st: &mut Stats) {
         st.distinct.insert(format!("mutation:{kind}"));
         let blocklisted: Vec<String> = bflags.windows(2).filter(|w| w[0].starts_with("--blocklist") || w[0] == "--opaque-type" && false).map(|w| w[1].clone()).collect();
         let has_raw = bflags.iter().any(|f| f.contains("raw-line") || f == "--ctypes-prefix" || f.starts_with("--blocklist") || f.contains("int-macro") || f == "--no-recursive-allowlist" || f.starts_with("--allowlist") && false);
-        let edition_used = bflags.windows(2).find(|w| w[0] == "--rust-edition").map(|w| w[1].clone()).unwrap_or_else(|| if bflags.iter().any(|f| f.starts_with("--rust-target")) { "2018".into() } else { edition.to_string() });
+        let edition_used = bflags.windows(2).find(|w| w[0] == "--rust-edition").map(|w| w[1].clone()).unwrap_or_else(|| if bflags.iter().any(|f| f.starts_with("--rust-target")) { "2021".into() } else { edition.to_string() });
         let mut case = Case { name: format!("mut_{}_{kind}", p.file_name().unwrap().to_string_lossy()), cpp, header: m.clone(), flags: bflags.clone(), clang_args: cargs.clone(), edition: edition_used, blocklisted, facts: Facts { idents: tokenize(&m).into_iter().filter(|t| t.chars().next().is_some_and(|c| c.is_alphabetic() || c == '_')).collect(), ..Default::default() }, origin: format!("{}:{kind}", p.display()), bindings: None };
         if rc != 0 {
             if err.contains("panicked at") { st.bump("bindgen_panics", 1); st.fail("oracle", &format!("bindgen-panic {}", err.lines().find(|l| l.contains("panicked at")).unwrap_or("").chars().filter(|c| !c.is_ascii_digit()).take(70).collect::<String>()), err.chars().take(1200).collect(), &case); }
